@@ -396,7 +396,7 @@ def run_orders_shipped(rec, part, nparts):
 
 CHILD = r"""
 import sys, json
-sys.path.insert(0, '/repo/src')
+sys.path.insert(0, sys.argv[3])
 from multidecoder.multidecoder import Multidecoder
 from multidecoder.registry import build_registry
 from multidecoder.json_conversion import tree_to_json
@@ -426,7 +426,7 @@ def run_seeds(rec, tier):
         env = dict(os.environ, PYTHONHASHSEED=str(seed))
         rec.count("evaluations")
         rec.mark("states", ("seed", seed), True)
-        r = subprocess.run([sys.executable, "-c", CHILD, families.FIXTURE_KW, json.dumps(ws)], capture_output=True, text=True, env=env, timeout=300)
+        r = subprocess.run([sys.executable, "-c", CHILD, families.FIXTURE_KW, json.dumps(ws), core.REPO_SRC], capture_output=True, text=True, env=env, timeout=300)
         w = {"kind": "seed", "seed": seed}
         if r.returncode != 0:
             rec.violation("C09.process.total", "child-failed", w, f"child under PYTHONHASHSEED={seed} failed: {core.short(r.stderr, 200)}", seed)
